@@ -39,7 +39,7 @@ def run_case(case):
     res = Result()
     rng = rng_for(case)
     d = scratch()
-    i = case["_i"]
+    i = case.get("_orig_i", case["_i"])
     gain = np2.GAIN_PAIRS[i % 4] if i < 8 else np2.GAIN_PAIRS[int(rng.integers(0, 4))]
     mode = ["dense", "random", "blocks", "singletons"][(i // 4) % 4] if i < 16 else str(rng.choice(["dense", "random", "blocks", "singletons"]))
     nsh = int(rng.integers(1, 5)) if mode != "dense" or rng.random() < 0.3 else 4
